@@ -81,6 +81,15 @@ func (g *Graph) String() string {
 	return sb.String()
 }
 
+func (g *Graph) hasKind(k string) bool {
+	for _, nd := range g.Nodes {
+		if nd.Kind == k {
+			return true
+		}
+	}
+	return false
+}
+
 func (g *Graph) hasLeafKind() bool {
 	for _, nd := range g.Nodes {
 		if leafKind(nd.Kind) {
